@@ -97,7 +97,11 @@ class World(BaseWorld):
             out.append(frozenset(o._reverse_mapping.items()))
         if s.t in CONSTRAINED:
             out.append(o._ancilla)
-            out.append(tuple(sorted((k, tuple(frozenset(dict.items(c)) for c in v)) for k, v in o._constraints.items())))
+            try:
+                out.append(tuple(sorted((k, tuple(frozenset(dict.items(c)) for c in v)) for k, v in o._constraints.items())))
+            except Exception as e:
+                # internals corrupted (e.g. through an aliased hand-out that the simulator mutated): still a snapshot, and a different one
+                out.append(("corrupt-constraints", repr(o._constraints)[:300]))
         return tuple(out)
 
     def resnap(self):
@@ -1062,7 +1066,11 @@ class World(BaseWorld):
     def read_constraints(self, obj):
         rc = RefConstraints()
         for rel, lst in obj._constraints.items():
+            if not isinstance(lst, list):
+                continue
             for c in lst:
+                if not isinstance(c, dict):
+                    continue
                 p = RefPoly(self.kind)
                 for k, v in dict.items(c):
                     p.add_term(tuple(k), v)
